@@ -665,8 +665,8 @@ func c13Scenarios(u *Universe) []schedScenario {
 					continue
 				}
 				name := fmt.Sprintf("%s workers=%d validate=%v", strings.Join(seq, ","), workers, validate)
-				if len(seq) >= 6 && Tier() != "thorough" {
-					scenarioPB[name] = 1 // quick tier: the long cycles with one preemption only
+				if (len(seq) >= 6 || workers > 1) && Tier() != "thorough" {
+					scenarioPB[name] = 1 // quick tier: the long cycles and the runs with several workers with one preemption only
 				}
 				scs = append(scs, schedScenario{name, c13Scenario(u, seq, workers, validate)})
 			}
@@ -736,7 +736,7 @@ func runC13() int {
 	if code != 0 {
 		return code
 	}
-	return rep.Finish(tot.coverage(map[string]any{"write_workers": []int{1, 2, 16}, "sequences": len(c13Sequences()), "preemption_bound_note": "quick tier: sequences of 6 and more messages run with preemption bound 1, sequences of more than 4 messages only with one write worker"}))
+	return rep.Finish(tot.coverage(map[string]any{"write_workers": []int{1, 2, 16}, "sequences": len(c13Sequences()), "preemption_bound_note": "quick tier: sequences of 6 and more messages and all runs with several write workers use preemption bound 1, sequences of more than 4 messages run only with one write worker"}))
 }
 
 func init() {
